@@ -48,6 +48,38 @@ def _worker_init(pid):
 
 
 def _run_chunk(args):
+    """Each chunk runs in a FORKED CHILD of the (initialised, otherwise idle) pool worker: the process state at the start
+    of a chunk is therefore always the pristine post-initialisation state, whatever ran before -- a violation that depends
+    on process-wide state accumulated by earlier scenarios is reproducible by replaying its chunk prefix in a fresh process."""
+    import pickle
+
+    rfd, wfd = os.pipe()
+    cpid = os.fork()
+    if cpid == 0:
+        code = 0
+        try:
+            os.close(rfd)
+            out = _run_chunk_body(args)
+            with os.fdopen(wfd, "wb") as f:
+                pickle.dump(out, f)
+        except BaseException:
+            code = 1
+            try:
+                traceback.print_exc()
+            except Exception:
+                pass
+        finally:
+            os._exit(code)
+    os.close(wfd)
+    with os.fdopen(rfd, "rb") as f:
+        data = f.read()
+    _, status = os.waitpid(cpid, 0)
+    if status != 0 or not data:
+        return {"harness_error": f"chunk {args[3]}..{args[4]} died (wait status {status})", "done": 0}
+    return pickle.loads(data)
+
+
+def _run_chunk_body(args):
     pid, tier, verif_seed, i0, i1, deadline = args
     mod = _W["mod"]
     findings = _W["findings"]
@@ -87,7 +119,7 @@ def _run_chunk(args):
                 known[k]["count"] += 1
             else:
                 if len(unknown) < 2:
-                    unknown.append({"seed": seed, "index": idx, "scenario": scn, "violation": v,
+                    unknown.append({"seed": seed, "index": idx, "chunk_start": i0, "scenario": scn, "violation": v,
                                     "result_extra": {k: res[k] for k in ("schedule", "first") if k in res}})
                 stats.inc("unknown_violations")
     return {"done": done, "stats": stats.c, "features": sorted(feats), "unknown": unknown, "known": known,
@@ -110,7 +142,19 @@ def cmd_replay(path):
     with open(path) as f:
         rp = json.load(f)
     pid = rp["property"]
-    if rp["scenario"].get("pre_batch"):
+    if rp["scenario"].get("chunk_prefix"):
+        # the violation needs process-wide state built up by the scenarios that ran before it in the same chunk: replay them all
+        cp = rp["scenario"]["chunk_prefix"]
+        mod = load_prop(pid)
+        if not _W.get("inited"):
+            _worker_init(pid)
+            _W["inited"] = True
+        res = {"violations": [], "digest": None}
+        for idx in range(cp["first_index"], cp["last_index"] + 1):
+            seed = core.run_seed(cp["verif_seed"], pid, cp["tier"], idx)
+            scn = mod.gen(seed, cp["tier"], idx) if getattr(mod, "GEN_TAKES_INDEX", False) else mod.gen(seed, cp["tier"])
+            res = mod.execute(scn)
+    elif rp["scenario"].get("pre_batch"):
         viols, _ = load_prop(pid).pre_batch("quick")
         res = {"violations": viols, "digest": None}
     else:
@@ -290,6 +334,15 @@ def cmd_check(pid, tier):
                     path = core.write_replay(pid, u["seed"], u["scenario"], u["violation"], None, False)
                     ok, out = _fresh_replay(path)
                     v = u["violation"]
+                if not ok:
+                    # last resort: the violation depends on process-wide state accumulated inside its chunk
+                    cp = {"chunk_prefix": {"first_index": u["chunk_start"], "last_index": u["index"], "verif_seed": verif_seed, "tier": tier}}
+                    path = core.write_replay(pid, u["seed"], cp, u["violation"], None, False)
+                    ok, out = _fresh_replay(path)
+                    v = u["violation"]
+                    if ok:
+                        lines.append(f"  (replay = run indices {u['chunk_start']}..{u['index']} in one fresh process: the violation depends on "
+                                     f"process-wide state left by earlier scenarios)")
                 if ok:
                     lines.append(f"VIOLATION property={pid} replay={path}")
                     lines.append(f"  oracle={v['oracle']} detail={json.dumps(v['detail'], default=str)[:800]}")
